@@ -75,3 +75,30 @@ fn distance_all_pairs_2x3() {
     kani::cover!(d[0][1].0 == 2.0, "samples 0 and 2 differ at both k-mers");
     std::mem::forget(a); std::mem::forget(d);
 }
+
+/// the table handed to `distance` may have no row left (every k-mer constant or below the frequency threshold):
+/// every unordered pair is still reported exactly once, at distance 0 with 0 mismatches
+#[kani::proof]
+#[kani::unwind(8)]
+fn distance_all_pairs_0x3() {
+    const C: usize = 3;
+    let rows: [[u8; C]; 0] = [];
+    let kmers: [u64; 0] = [];
+    let a = mk_array::<0, C>(&kmers, &rows);
+    let cst: u8 = kani::any();
+    kani::assume(cst <= 2);
+    let d = a.distance(cst as f64);
+    assert!(d.len() == C, "one result row per sample");
+    let mut i = 0;
+    while i < C {
+        assert!(d[i].len() == C - 1 - i, "row i holds the pairs (i,j) with j>i: each unordered pair exactly once");
+        let mut j = i + 1;
+        while j < C {
+            assert!(d[i][j - i - 1].0 == 0.0 && d[i][j - i - 1].1 == 0.0, "no variable k-mer left: distance 0 and mismatch 0");
+            j += 1;
+        }
+        i += 1;
+    }
+    kani::cover!(cst == 2, "two constant sites, no variable row");
+    std::mem::forget(a); std::mem::forget(d);
+}
